@@ -77,7 +77,9 @@ class EZSP:
         status = t.sl_Status.from_ember_status(args[0])
 
         for listener in self._stack_status_listeners[status]:
-            listener.set_result(status)
+            # A cancelled listener stays in the list until its done-callback has run
+            if not listener.done():
+                listener.set_result(status)
 
     @contextlib.contextmanager
     def wait_for_stack_status(self, status: t.sl_Status) -> Generator[asyncio.Future]:
